@@ -213,7 +213,17 @@ func min(a, b int) int {
 }
 
 func genDepText(t *rapid.T) DepText {
-	switch rapid.IntRange(0, 10).Draw(t, "src") {
+	switch rapid.IntRange(0, 11).Draw(t, "src") {
+	case 11:
+		// names that begin with a byte the parser takes for a name byte but other layers give a
+		// meaning to in the first column ('#' comment, '-' armor, '.' empty line, quotes ...), as
+		// the first name of the field - behind a blank, a tab, a line end, an empty relation - or
+		// of a later relation, also at the start of a continuation line
+		odd := rapid.SampledFrom([]string{"#", "#", "-", ".", "%", "&", "*", "/", "?", "@", "^", "_", "`", "\"", "'", "\\", ";", "=", "+", "~", "#!", "--", "/*"}).Draw(t, "oddLead")
+		lead := rapid.SampledFrom([]string{" ", " ", "\t", "\n ", ", ", " , ", "", "  "}).Draw(t, "oddBefore")
+		first := odd + rapid.SampledFrom([]string{"foo", "a", "lib-x1", ""}).Draw(t, "oddName")
+		rest := rapid.SampledFrom([]string{"", ", bar", " | baz", " (>= 1.0), bar", ",\n" + odd + "second", ",\n " + odd + "second", " [amd64], x"}).Draw(t, "oddRest")
+		return DepText{lead + first + rest}
 	case 10:
 		// the near-miss corpus of C04: whatever of it a parser (this one, or a more lenient
 		// future one) accepts has to survive rendering like anything else
@@ -238,7 +248,7 @@ func genDepText(t *rapid.T) DepText {
 
 var specC05Fixpoint = Register(&Spec[DepText]{
 	Prop: "C05", Name: "fixpoint",
-	Rule:  "candidate strings from (a) all C04 renderings (ASTs x spacing classes), (b) 1..3 byte-level edits of them (insert/delete/replace/duplicate/splice, biased to the token bytes , | ( ) [ ] < > ! $ { } : blank tab newline and to bytes >= 0x80), (c) token soups and raw bytes, (d) the malformed fields of C04/malformed (substvars followed by clauses, unterminated constructs, doubled clauses ...); every string dependency.Parse accepts must render to a string that is accepted, parses to a structurally identical value (names, qualifier triple, operator+number, arch list+negation, profile groups, substvar marker; nil == empty), is itself a fixpoint of render, equals MarshalControl, and reads back through UnmarshalControl. Non-trivial: accepted and not already canonical, or containing a substvar, qualifier, wildcard arch, negated list, >=2 profile groups, version constraint or non-ASCII byte; distinct by text.",
+	Rule:  "candidate strings from (a) all C04 renderings (ASTs x spacing classes), (b) 1..3 byte-level edits of them (insert/delete/replace/duplicate/splice, biased to the token bytes , | ( ) [ ] < > ! $ { } : blank tab newline and to bytes >= 0x80), (c) token soups and raw bytes, (d) the malformed fields of C04/malformed (substvars followed by clauses, unterminated constructs, doubled clauses ...), (e) fields whose first name (or the first name of a continuation line) starts with '#', '-', '.', a quote or another byte that means something in the first column of a line to other layers, written behind a blank, tab, line end or empty relation; every string dependency.Parse accepts must render to a string that is accepted, parses to a structurally identical value (names, qualifier triple, operator+number, arch list+negation, profile groups, substvar marker; nil == empty), is itself a fixpoint of render, equals MarshalControl, and reads back through UnmarshalControl. Non-trivial: accepted and not already canonical, or containing a substvar, qualifier, wildcard arch, negated list, >=2 profile groups, version constraint or non-ASCII byte; distinct by text.",
 	Check: func(c DepText, r *Recorder) error { return checkDepFixpoint(c.S, r) },
 })
 
